@@ -237,7 +237,7 @@ def run(ctx):
         shapes = [s for i, s in enumerate(shapes) if (i + ctx.seed) % 2 == 0]
     evaluate(ctx, shapes, res)
     res['scopes']['enumerated_shapes'] = len(shapes)
-    n = (400000 if ctx.tier == 'thorough' else 60000) if ctx.deep else 8000
+    n = (400000 if ctx.tier == "thorough" else 40000) if ctx.deep else 8000
     # every fourth program also catches / raises the cancellation family itself (outside NoCatch)
     progs = [T.gen(rng, 4, tie_prone=(i % 3 == 0), cx=(i % 4 == 3)) for i in range(n)]
     evaluate(ctx, progs, res)
@@ -245,7 +245,7 @@ def run(ctx):
     res['scopes']['generated_catching_cancellation'] = sum(1 for q in progs if not T.nocatch(q))
     # timeout programs with task groups in them (clean-ups that await while a cancellation is in
     # flight): nothing left armed, no stray cancellation, the model's trace
-    ng = (20000 if ctx.tier == 'thorough' else 4000) if ctx.deep else 500
+    ng = (20000 if ctx.tier == "thorough" else 2500) if ctx.deep else 500
     gprogs = []
     while len(gprogs) < ng:
         q = T.gen_group(rng, 4)
